@@ -6,6 +6,10 @@ def encode(node, defs, v, indices, union_type=True):
     """v: normalised value; indices: conform.Indices with the branch per union."""
     n = deref(node, defs)
     k = n["k"]
+    if "logical" in n:
+        from . import logical
+
+        v = logical.to_underlying(n, v)  # the JSON encoding is that of the underlying type
     if k in ("null", "boolean", "int", "long", "float", "double", "string", "enum"):
         return v
     if k in ("bytes", "fixed"):
